@@ -7,7 +7,7 @@ V = os.path.dirname(os.path.dirname(os.path.abspath(__file__)))
 args = [a for a in sys.argv[1:] if not a.startswith('--')]; tier = 'quick'
 if '--tier' in sys.argv: tier = sys.argv[sys.argv.index('--tier') + 1]; args.remove(tier)
 sid, checks = args[0], args[1:]; d = f'{V}/seeded/{sid}'; meta = json.load(open(f'{d}/meta.json'))
-r = subprocess.run([f'{V}/tools/seedtest.py', f'{d}/patch.diff', 're-' + sid[:12]] + checks + ['--tier', tier], stdout=subprocess.PIPE, stderr=subprocess.STDOUT, text=True)
+r = subprocess.run([f'{V}/tools/seedtest.py', f'{d}/patch.diff', 're%d-' % os.getpid() + sid[:12]] + checks + ['--tier', tier], stdout=subprocess.PIPE, stderr=subprocess.STDOUT, text=True)
 res = json.loads([l for l in r.stdout.splitlines() if l.startswith('{"patch"')][-1])['results']
 meta.setdefault('earlier_runs', []).append({'date': meta.get('date'), 'tier': meta.get('tier'), 'checks_run': meta.get('checks_run'), 'caught_by': meta.get('caught_by')})
 cr = dict(meta.get('checks_run') or {})
